@@ -19,7 +19,7 @@ R19c  every fix driver reads the fixable/unfixable counts that decide its exit
 from __future__ import annotations
 
 import ast
-from typing import List, Optional
+from typing import Dict, List, Optional
 
 from ..cfg import cfg_of, origins, own_exprs
 from ..counts import Counts, root_name
@@ -75,9 +75,77 @@ def run(chk) -> None:
     chk.rule("R19a", "the rule pack handed to lint_parsed / lint_rendered / lint_fix_parsed is built from the per-file config of the object being linted")
     chk.rule("R19b", "stdin with --stdin-filename gets its config from make_child_from_path(stdin_filename) before linting; paths from make_child_from_path(fname); both then process inline config")
     chk.rule("R19c", "fix drivers read exit-deciding fixable/unfixable counts only after the discard step")
+    chk.rule("R19d", "a command that dispatches to the stdin fix driver and to the path fix driver hands both the same value for every option they share (fix_even_unparsable, linter, formatter)")
     _r19a(chk, repo)
     _r19b(chk, repo)
     _r19c(chk, repo)
+    _r19d(chk, repo)
+
+
+# ---------------------------------------------------------------------------
+def _canon_value(cfg, e: ast.expr, at, depth: int = 0):
+    """A value identity for sibling-argument comparison: constants by value; a local bound
+    once by a plain expression is replaced by that expression (at its definition); anything
+    else by its normalised text plus the reaching definitions of the names it mentions."""
+    if isinstance(e, ast.Constant):
+        return ("const", repr(e.value))
+    if isinstance(e, ast.Name) and depth < 4:
+        os_ = origins(cfg, e, at)
+        if len(os_) == 1 and os_[0].kind == "expr" and not os_[0].path and not isinstance(os_[0].expr, ast.Name):
+            return _canon_value(cfg, os_[0].expr, os_[0].stmt, depth + 1)
+    rd = cfg.reaching()
+    names = sorted({n.id for n in ast.walk(e) if isinstance(n, ast.Name)})
+    return ("expr", norm(e), tuple((n, tuple(sorted(id(d) for d in rd.defs_at(at, n)))) for n in names))
+
+
+def _r19d(chk, repo) -> None:
+    cli = repo.mod(CLI)
+    drivers = {}
+    for q, f in cli.functions():
+        if f.name in ("_stdin_fix", "_paths_fix"):
+            drivers[f.name] = f
+    if len(drivers) != 2:
+        raise AnalysisError("R19d: _stdin_fix / _paths_fix not found in cli/commands.py (anchor renamed?)")
+    p_stdin = [a.arg for a in drivers["_stdin_fix"].args.args]
+    p_paths = [a.arg for a in drivers["_paths_fix"].args.args]
+    shared = [p for p in p_stdin if p in p_paths]
+    chk.count("R19d.shared_parameters", len(shared))
+    chk.floor("R19d.shared_parameters", 3)
+
+    def bind(call: ast.Call, params: List[str]) -> Dict[str, ast.expr]:
+        out = {}
+        for i, a in enumerate(call.args):
+            if i < len(params):
+                out[params[i]] = a
+        for k in call.keywords:
+            if k.arg:
+                out[k.arg] = k.value
+        return out
+
+    n = 0
+    for q, f in cli.functions():
+        cs = [c for c in calls_in(f) if isinstance(c.func, ast.Name) and c.func.id == "_stdin_fix"]
+        cp = [c for c in calls_in(f) if isinstance(c.func, ast.Name) and c.func.id == "_paths_fix"]
+        if not cs or not cp:
+            continue
+        n += 1
+        cfg = cfg_of(f)
+        for a in cs:
+            for b in cp:
+                ba, bb = bind(a, p_stdin), bind(b, p_paths)
+                for p in shared:
+                    if p not in ba or p not in bb:
+                        continue  # defaulted on one side: nothing to compare
+                    va = _canon_value(cfg, ba[p], cfg.stmt_of(a))
+                    vb = _canon_value(cfg, bb[p], cfg.stmt_of(b))
+                    chk.require(
+                        va == vb, "R19d", a,
+                        f"`{f.name}` passes {norm(ba[p])!r} as `{p}` to the stdin fix driver but {norm(bb[p])!r} to the path fix driver: "
+                        "the same file given on stdin and by path is then fixed under different settings",
+                        detail=f"{q}: stdin/path drivers get the same `{p}`",
+                    )
+    chk.count("R19d.dispatching_commands", n)
+    chk.floor("R19d.dispatching_commands", 2)
 
 
 # ---------------------------------------------------------------------------
@@ -380,6 +448,18 @@ def _r19c(chk, repo) -> None:
 from ..selftest import Variant  # noqa: E402
 
 VARIANTS = [
+    Variant(
+        "stdin-fix-gets-per-file-fix-even-unparsable", CLI,
+        "            _stdin_fix(lnt, formatter, fix_even_unparsable, stdin_filename)\n",
+        "            _stdin_fix(lnt, formatter, lnt.config.get(\"fix_even_unparsable\"), stdin_filename)\n",
+        "R19d", "fix", "seeded C19-1: the stdin branch reads the option from the per-file child config, the path branch from the root",
+    ),
+    Variant(
+        "quiet-stdin-fix-option-read-inline", CLI,
+        "            _stdin_fix(lnt, formatter, fix_even_unparsable, stdin_filename)\n",
+        "            _stdin_fix(lnt, formatter, config.get(\"fix_even_unparsable\"), stdin_filename)\n",
+        "QUIET", None, "same root-config read, spelled inline at one call site",
+    ),
     # behaviour-preserving refactors: must stay quiet
     Variant(
         "quiet-stdin-fix-counts-after-discard-renamed", CLI,
